@@ -335,7 +335,7 @@ pub fn c09(args: &Args) -> Report {
         if i % 2 == 0 {
             p.kinds = vec![0, 3, 10000, 30000, 30000, 30001, 1];
         }
-        p.times = vec![100, 101, 102, 103];
+        p.times = if i % 5 == 3 { vec![100, 101, 4_102_444_800, 4_102_444_801, u64::MAX - 1, u64::MAX] } else { vec![100, 101, 102, 103] };
         p.dvals = vec!["".into(), "x".into(), "x\u{0}".into(), "x\u{0}\u{0}".into(), "y".into(), long_d(181, "a"), long_d(182, "a"), long_d(183, "ab"), long_d(183, "ac"), long_d(400, "z1"), long_d(400, "z2")];
         p.content_lens = vec![0, 3];
         p.max_extra_tags = 1;
@@ -404,7 +404,7 @@ pub fn c10(args: &Args) -> Report {
         let mut p = Pools::basic();
         p.authors = vec![author(0), author(1)];
         p.kinds = vec![1, 0, 10002, 30023, 30023, 30024, 7];
-        p.times = vec![100, 101, 102, 103, 200];
+        p.times = if i % 5 == 3 { vec![100, 101, 4_102_444_800, u64::MAX - 1, u64::MAX] } else { vec![100, 101, 102, 103, 200] };
         p.dvals = vec!["".into(), "x".into(), "y".into()];
         p.content_lens = vec![0, 4];
         p.max_extra_tags = 1;
@@ -543,7 +543,7 @@ pub fn c12(args: &Args) -> Report {
         let mut p = Pools::basic();
         p.authors = vec![author(0), author(1)];
         p.kinds = vec![1, 0, 10002, 30023, 30023, 7];
-        p.times = vec![100, 101, 102, 103];
+        p.times = if i % 5 == 3 { vec![100, 101, 4_102_444_800, u64::MAX - 1, u64::MAX] } else { vec![100, 101, 102, 103] };
         // a d value too long for an address marker key: the request fails inside LMDB after earlier tags took effect
         p.dvals = vec!["".into(), "x".into(), "y".into(), long_d(480, "big")];
         p.content_lens = vec![0, 4];
@@ -807,7 +807,7 @@ pub fn c18(args: &Args) -> Report {
         let mut rng = hist_rng(args.seed(), 0xC18, i);
         let mut p = Pools::basic();
         p.kinds = vec![1, 7, 0, 10002, 30023, 1059, 1059, 1058, 1060, 20000, 25000, 29999, 5];
-        p.times = vec![100, 101, 102, 200];
+        p.times = if i % 4 == 3 { vec![100, 101, 4_102_444_800, u64::MAX] } else { vec![100, 101, 102, 200] };
         p.content_lens = vec![0, 5];
         p.max_extra_tags = 3;
         let mut mix = Mix::base();
